@@ -93,6 +93,17 @@ func (w *World) callMods(c *ssa.CallCommon) map[string]bool {
 		return w.invokeMods(c.Value.Type(), c.Method.Name())
 	}
 	if callee := c.StaticCallee(); callee != nil {
+		switch shortName(callee.String()) {
+		case "io.WriteString", "fmt.Fprintf", "fmt.Fprint", "fmt.Fprintln":
+			// modelled as: p := []byte(formatted); w.Write(p)   (see Exec.intrinsic)
+			m := map[string]bool{"S$Int": false}
+			if len(c.Args) > 0 {
+				for n, wr := range w.invokeMods(c.Args[0].Type(), "Write") {
+					addMod(m, n, wr)
+				}
+			}
+			return m
+		}
 		return w.fnMods(callee)
 	}
 	if mc, ok := c.Value.(*ssa.MakeClosure); ok {
@@ -228,6 +239,19 @@ func (w *World) instrModsIn(in ssa.Instruction, m map[string]bool, scope func(*s
 			if ff != nil && r.Heap {
 				// fresh heap object: allocation only
 				w.fieldMod(ff, m, !isLocalFresh(r, scope))
+			}
+			if ff == nil && r.Heap {
+				// whole-object store to a heap-allocated variable (e.g. one captured by a
+				// closure that escapes): a write to its pointer-cell heap / field heaps
+				et := r.Type().(*types.Pointer).Elem()
+				wr := !isLocalFresh(r, scope)
+				if st := structOf(et); st != nil && strings.HasPrefix(w.sortOf(et, d), "S$") {
+					for i := 0; i < st.NumFields(); i++ {
+						addMod(m, "F$"+structKey(et)+"$"+st.Field(i).Name(), wr)
+					}
+				} else if _, isArr := types.Unalias(et).Underlying().(*types.Array); !isArr {
+					addMod(m, "P$"+w.sortOf(et, d), wr)
+				}
 			}
 			return
 		case *ssa.Global:
